@@ -8,6 +8,8 @@ import warnings
 from fractions import Fraction
 
 import dask
+import random as _random
+
 import numpy as np
 
 from common import Check, clist, cnat, copt, coq_eval_cases, coq_eval_expr, ctuple, cz
@@ -100,9 +102,13 @@ def fam_blockdims(chk, common_blockdim, coarse_blockdim, tier):
             want = set().union(*[bounds(d) for d in dset])
             zero = any(0 in d for d in dset)
             if bad or bounds(cm) != want or any(c <= 0 for c in cm) and not zero:
-                chk.violation("common_blockdim is not the common refinement of its inputs",
+                # F23 (known): with zero-size chunks only the ZERO-SIZE blocks are mis-placed; every boundary of every operand
+                # is still a boundary of the result.  A result that loses an operand's boundary merges real blocks.
+                tot = sum(cm)
+                loses = (bounds(cm) - {0, tot}) != (want - {0, tot})       # interior boundaries only: zero-size blocks sit at 0 / at the end
+                chk.violation("common_blockdim is not the common refinement of its inputs" + (" (it loses block boundaries)" if loses else ""),
                               {"fn": "common_blockdim", "blockdims": sorted(dset), "impl": cm},
-                              signature={"fn": "common_blockdim", "zero_size_chunks": zero})
+                              signature={"fn": "common_blockdim", "zero_size_chunks": zero, "loses_boundaries": loses})
         if co is not None:
             nt = [d for d in dset if len(d) > 1]
             ok = (co in dset and all(refines(d, co) for d in nt)) or co == cm
@@ -259,6 +265,27 @@ def fam_unify(chk, tier):
                 except Exception as e:  # noqa: BLE001
                     chk.violation("elemwise over differently chunked operands raised " + type(e).__name__ + ": " + str(e)[:100], desc,
                                   signature={"fn": "unify_chunks_expr", "class": "raises"})
+            # a masked ufunc call: the where= mask and the out= array are operands too and must be brought to the common layout
+            if it % 4 == 2 and all(o.dtype.kind != "c" for o in ops[:2]) and all(s_ > 0 for s_ in shape):
+                mrng = _random.Random(f"C17-masked-{it}-{chk.seed}")
+                try:
+                    _materialize._LOWER_CACHE.clear()
+                    mlay = tuple(mrng.choice(per_axis[ax]) for ax in range(rank))
+                    olay = tuple(mrng.choice(per_axis[ax]) for ax in range(rank))
+                    m_np = (np.arange(int(np.prod(shape))).reshape(shape) % 3 != 1)
+                    o_np = np.full(shape, -7.0)
+                    a0, a1 = nps[0].astype("f8"), nps[1].astype("f8")
+                    want = np.add(a0, a1, where=m_np, out=o_np.copy())
+                    got = da.add(ops[0].astype("f8"), ops[1].astype("f8"), where=da.from_array(m_np, chunks=mlay),
+                                 out=da.from_array(o_np, chunks=olay)).compute(scheduler="sync")
+                    chk.count(f"unify:masked-ufunc:{policy}")
+                    if got.shape != want.shape or not np.array_equal(got, want):
+                        chk.violation("masked ufunc (where=, out=) over differently chunked operands computes a wrong result "
+                                      f"(shape {got.shape}, NumPy {want.shape})", {**desc, "where_chunks": mlay, "out_chunks": olay},
+                                      signature={"fn": "unify_chunks_expr", "class": "values", "masked_ufunc": True})
+                except Exception as e:  # noqa: BLE001
+                    chk.violation("masked ufunc (where=, out=) over differently chunked operands raised " + type(e).__name__ + ": " + str(e)[:100],
+                                  {**desc, "where_chunks": mlay, "out_chunks": olay}, signature={"fn": "unify_chunks_expr", "class": "raises", "masked_ufunc": True})
 
     # targeted family (found by seeded change C17-2): on one index a much lighter operand holds the coarse layout, so the
     # cost-aware pass refuses that merge and refines; on another index comparably heavy operands disagree, the merge is
